@@ -2,7 +2,7 @@
    TCP-side filter in core.rs and of Core::reload_tls_hosts_settings. Names are byte strings;
    a host's certificate identity is its index in main ++ reverse-proxy ++ ping ++ speedtest. *)
 From Coq Require Import List NArith Bool.
-From TT Require Import Lib.BytesL Lib.Utf8.
+From TT Require Import Lib.BytesL Lib.Utf8 Generated.DemuxFacts.
 Import ListNotations.
 Open Scope N_scope.
 
@@ -139,15 +139,23 @@ Definition select (c : config) (alpn : list (list N)) (sni : list N) : option me
       end
     end.
 
-(* core.rs on_new_tls_connection: a selection of HTTP/3 on a TCP connection is refused *)
-Definition select_tcp (c : config) (alpn : list (list N)) (sni : option (list N)) : option meta :=
+(* core.rs on_new_tls_connection: HTTP/3 is not spoken over TCP. [ignores_h3] = TCP_H3_OFFER_IGNORED: an offer of h3 does not
+   count, the rest of the offer does (a client that offers nothing but h3 is refused); as found the whole offer was handed to
+   select and a selection of HTTP/3 refused the connection although h2 or http/1.1 had been offered too. *)
+Definition not_h3 (a : list N) : bool := negb (name_eqb a [104; 51]).
+Definition select_tcp_with (ignores_h3 : bool) (c : config) (alpn : list (list N)) (sni : option (list N)) : option meta :=
   match sni with
   | None => None
-  | Some s => match select c alpn s with
-              | Some m => match m_proto m with H3 => None | _ => Some m end
-              | None => None
-              end
+  | Some s =>
+    let offer := if ignores_h3 then filter not_h3 alpn else alpn in
+    if ignores_h3 && is_nil offer && negb (is_nil alpn) then None
+    else match select c offer s with
+         | Some m => match m_proto m with H3 => None | _ => Some m end
+         | None => None
+         end
   end.
+
+Definition select_tcp : config -> list (list N) -> option (list N) -> option meta := select_tcp_with TCP_H3_OFFER_IGNORED.
 
 (* quic_multiplexer.rs: the QUIC listener offers select the single protocol h3 together with the SNI, once in the
    certificate callback and once when the handshake is finished. A selection is what the connection is served as; a
